@@ -335,6 +335,13 @@ func (w pipeWriteCloser) Close() error {
 	return nil
 }
 
+// halfOpenWriter is the client->server direction of a link whose Close does nothing (a half-open connection, a
+// transport with a no-op Close): writes keep succeeding after the client has given the connection up.
+type halfOpenWriter struct{ p *bpipe }
+
+func (w halfOpenWriter) Write(b []byte) (int, error) { return w.p.Write(b) }
+func (w halfOpenWriter) Close() error                { return nil }
+
 // ---------------------------------------------------------------- independent codec
 
 const (
